@@ -72,6 +72,10 @@ pub fn my_roots(cfg: &Cfg) -> Vec<RootCtx> {
         .filter(|(i, r)| i % cfg.nshards == cfg.shard && cfg.filter.as_ref().map_or(true, |f| r.name().contains(f.as_str())))
         .map(|(_, r)| RootCtx { root: r, name: r.name(), ty: r.ty() })
         .filter(|rc| !cfg.user_only || has_user(&rc.ty))
+        // Types whose alignment unit is not a power of two (known finding
+        // under C07) have no well-defined padding: only C07 (which reports
+        // them) and the implementation-only round trip of C01 look at them.
+        .filter(|rc| matches!(cfg.prop.as_str(), "C01" | "C07" | "corpus-write" | "list") || !model::layout::has_odd_unit(&rc.ty))
         .collect()
 }
 
